@@ -178,12 +178,18 @@ def run(chk):
             c = dict(obj=obj, fmt=fmt, ext=ext, ft=ft, fp=fp, dp=dp, name=name, start=len(lines), nsetup=len(L))
             L.append('vd 0 digest')
             c['i_digest'] = len(lines) + len(L) - 1
-            L.append('vd 0 cksave ' + h(name))
-            c['i_ck'] = len(lines) + len(L) - 1
-            L.append('vd 0 savestr ' + h(name))
-            c['i_save'] = len(lines) + len(L) - 1
-            L.append('vd 0 save ' + h(os.path.join(tmpdir, name)))
-            c['i_file'] = len(lines) + len(L) - 1
+            # cksave / save to a stream / save to a file in any order: each must behave the same on the pristine object (a save that
+            # promotes Touchstone 1 to 2 leaves the file type promoted, so whichever comes first sees the original setting)
+            for op_ in rng.choice([('ck', 'str', 'file'), ('str', 'ck', 'file'), ('file', 'str', 'ck'), ('str', 'file', 'ck')]):
+                if op_ == 'ck':
+                    L.append('vd 0 cksave ' + h(name))
+                    c['i_ck'] = len(lines) + len(L) - 1
+                elif op_ == 'str':
+                    L.append('vd 0 savestr ' + h(name))
+                    c['i_save'] = len(lines) + len(L) - 1
+                else:
+                    L.append('vd 0 save ' + h(os.path.join(tmpdir, name)))
+                    c['i_file'] = len(lines) + len(L) - 1
             L.append('vd 0 get_format')
             c['i_fmt'] = len(lines) + len(L) - 1
             # the object in every parameter type the formats may ask for (independent of the save path)
